@@ -42,6 +42,7 @@
 
 use crate::constants::MAX_BLACKBOARD_KEY_SIZE;
 use crate::identifiers::UniqueWriterId;
+use crate::node::PortTag;
 use crate::port::port_name::PortName;
 use crate::prelude::EventId;
 use crate::service::dynamic_config::blackboard::WriterDetails;
@@ -154,7 +155,7 @@ pub struct Writer<
     // the struct.
     // Otherwise the process might crash during cleanup, has already removed the tag but other resources
     // are still existing. This would make a cleanup from another process impossible.
-    port_tag: Service::StaticStorage,
+    port_tag: PortTag<Service>,
 }
 
 impl<
@@ -169,7 +170,7 @@ impl<
                 &mut this.shared_state,
             ))
         };
-        unsafe { Service::StaticStorage::abandon_in_place(NonNull::from_mut(&mut this.port_tag)) };
+        unsafe { PortTag::<Service>::abandon_in_place(NonNull::from_mut(&mut this.port_tag)) };
     }
 }
 
